@@ -376,25 +376,26 @@ func (s *ledgerSnap) checkInvariants(env *Env, hist []string, tolerateOrphans bo
 // ---- the domain -------------------------------------------------------------------------
 
 type ledgerWorld struct {
-	c         *Chain
-	env       *Env
-	rng       *RNG
-	hist      []string
-	stakers   []Actor
-	ops       []sdk.AccAddress // registered operators (validators first)
-	assets    []AssetSpec
-	nonce     uint64
-	slashN    int
-	curDec    uint32  // decimals of the asset the current op is about
-	nstakers  []Actor // accounts holding native tokens that delegate the native asset
-	forced    []forcedOp // scripted next operations (directed sub-scenarios inside a random history)
-	lastSlash *slashEvent
-	huge      bool // extreme amounts (2^64..2^200); such histories never reach an epoch end (see C11 findings F-11f/g)
-	gDep      map[string]*big.Int
-	gWd       map[string]*big.Int
-	gSl       map[string]*big.Int
-	orphans   bool // a known-finding directed scenario left orphaned records behind
-	nstMode   bool // history with native-restaking balance adjustments (UpdateNSTBalance), replayed by the model like every other op
+	c           *Chain
+	env         *Env
+	rng         *RNG
+	hist        []string
+	stakers     []Actor
+	ops         []sdk.AccAddress // registered operators (validators first)
+	assets      []AssetSpec
+	nonce       uint64
+	slashN      int
+	curDec      uint32     // decimals of the asset the current op is about
+	nstakers    []Actor    // accounts holding native tokens that delegate the native asset
+	forced      []forcedOp // scripted next operations (directed sub-scenarios inside a random history)
+	lastSlash   *slashEvent
+	huge        bool // extreme amounts (2^64..2^200); such histories never reach an epoch end (see C11 findings F-11f/g)
+	gDep        map[string]*big.Int
+	gWd         map[string]*big.Int
+	gSl         map[string]*big.Int
+	orphans     bool // a known-finding directed scenario left orphaned records behind
+	rewardTried bool // the nst-reward-withdraw sub-scenario was injected in this history
+	nstMode     bool // history with native-restaking balance adjustments (UpdateNSTBalance), replayed by the model like every other op
 }
 
 func (w *ledgerWorld) emit(op, obs string) {
@@ -735,6 +736,21 @@ func (w *ledgerWorld) step(prev *ledgerSnap, kinds map[string]int) *ledgerSnap {
 		w.forced = append(w.forced, forcedOp{5, fs, 0, fo, 0})
 		w.env.Outcome("scenario.multi-asset-association")
 	}
+	if w.nstMode && !w.rewardTried && len(w.forced) == 0 && len(w.assets) >= 2 {
+		// directed sub-scenario, once per NST history: the ONLY depositor of an asset receives a
+		// positive NST adjustment (a client-chain staking reward: deposit and withdrawable balance grow,
+		// the published staking total does not) and then asks for everything it can withdraw, principal
+		// + reward. The published total = deposits - withdrawals cannot go below zero, so the code must
+		// refuse (or take) the withdrawal as a whole - never book it in part
+		w.rewardTried = true
+		lai := len(w.assets) - 1
+		if t := prev.totals[c.AssetIDs[lai]]; t != nil && t.Sign() == 0 {
+			fs, fo := w.stakers[r.Intn(len(w.stakers))], w.ops[0]
+			w.forced = append(w.forced, forcedOp{0, fs, lai, fo, int64(32 + r.Intn(100000))}, forcedOp{9, fs, lai, fo, 1}, forcedOp{1, fs, lai, fo, -1},
+				forcedOp{0, fs, lai, fo, int64(1 + r.Intn(1000))}, forcedOp{1, fs, lai, fo, -1})
+			w.env.Outcome("scenario.nst-reward-withdraw")
+		}
+	}
 	if w.nstMode && len(w.forced) == 0 && r.Chance(1, 20) {
 		// directed sub-scenario for the NST adjustment: one staker with a withdrawable balance, positions
 		// at two operators and several pending undelegations, then decreases that end inside the pending
@@ -830,6 +846,9 @@ func (w *ledgerWorld) step(prev *ledgerSnap, kinds map[string]int) *ledgerSnap {
 			near = row.withdrawable
 		}
 		x := w.amount(near)
+		if forcedKind >= 0 && forcedAmt == -1 && near != nil { // scripted: exactly the withdrawable balance
+			x = sdkmath.NewIntFromBigInt(near)
+		}
 		err := c.CachedDo(func(ctx sdk.Context) error {
 			return c.App.AssetsKeeper.PerformDepositOrWithdraw(ctx, &assetskeeper.DepositWithdrawParams{
 				ClientChainLzID: c.LzID, Action: assetstypes.WithdrawLST, StakerAddress: st.Eth.Bytes(), AssetsAddress: w.assetAddr(ai), OpAmount: x})
